@@ -104,6 +104,26 @@ def step (s : St) (w : List String) : St × String :=
     match s.r.xpeek 0 with
     | .ok (r', out) => ({ s with r := r' }, line "ok" (out.take (out.length / 2 * 2)) r' (toString (out.length / 2)) alts)
     | x => (s, line "refused" [] s.r (resName x) alts)
+  -- C++ mpt::encode_queue without encoder (mpt++/queue.cpp): all content is finished data, trim(n) crops it at the front
+  | ["xe", "new", mx, off, fill] =>
+    match mx.toNat?, off.toNat?, parseHex fill with
+    | some m, some o, some f =>
+      if o ≤ m ∧ f.length ≤ m then
+        let r := Ring.make m o f
+        ({ r := r, d := f }, line "ok" [] r "0" [(okR, f)])
+      else (s, "bad-op")
+    | _, _, _ => (s, "bad-op")
+  | ["xe", "trim", n] =>
+    match n.toNat? with
+    | some n =>
+      -- spec: n finished bytes are there -> they are removed from the front; else refused, nothing changed
+      let alts : List Alt := if n ≤ d.length then [(okR, d.drop n)] else [(refR, d)]
+      if n > s.r.len then (s, line "refused" [] s.r "false" alts)
+      else
+        match s.r.stepX (.crop 0 n) with
+        | (r', .ok _, _) => ({ r := r', d := d.drop n }, line "ok" [] r' "true" alts)
+        | (r', _, ret) => ({ s with r := r' }, line "ok" [] r' ret alts)   -- trim ignores the result of the crop
+    | none => (s, "bad-op")
   -- C++ io::queue wrappers (mpt++/io_queue.cpp)
   | ["xq", "new", mx, off, fill] =>
     match mx.toNat?, off.toNat?, parseHex fill with
